@@ -376,7 +376,7 @@ def vacuity_vcs(prop, rep):
             for r in c.requires:
                 E.assume(E.spec_bool(r, fr.env))
             E.entry_env = dict(fr.env)
-            E.old_stack.append((dict(fr.env), dict(E.heap)))
+            E.old_stack.append((dict(fr.env), dict(E.heap), dict(E.ghostv)))
             for (ln, exprs) in c.hints:
                 E.add_hint(ln, exprs, fr.env)
         except Exception as ex:
